@@ -121,7 +121,8 @@ async fn run_script(script: &Value) -> Value {
     let traffic: Arc<Mutex<Vec<Value>>> = Arc::new(Mutex::new(vec![]));
     let config_answer = script["config"].clone();
     let answer_now = Arc::new(Notify::new());
-    let (mut stream, mut sink) = socket.split();
+    let (mut stream, sink) = socket.split();
+    let sink = Arc::new(tokio::sync::Mutex::new(sink));
     let t2 = traffic.clone();
     let an = answer_now.clone();
     tokio::spawn(async move {
@@ -140,13 +141,17 @@ async fn run_script(script: &Value) -> Value {
                     t2.lock().unwrap().push(json!({"kind": "config_request"}));
                     if let Some(id) = req.id().cloned() {
                         if config_answer == json!("none") { continue; }
-                        an.notified().await;
-                        let resp = if config_answer == json!("error") {
-                            Response::from_error(id, tower_lsp::jsonrpc::Error::method_not_found())
-                        } else {
-                            Response::from_ok(id, json!([config_answer.clone()]))
-                        };
-                        let _ = sink.send(resp).await;
+                        // answered from a task of its own, so that the traffic after the request keeps being read while the answer is held back
+                        let (an, sink, config_answer) = (an.clone(), sink.clone(), config_answer.clone());
+                        tokio::spawn(async move {
+                            an.notified().await;
+                            let resp = if config_answer == json!("error") {
+                                Response::from_error(id, tower_lsp::jsonrpc::Error::method_not_found())
+                            } else {
+                                Response::from_ok(id, json!([config_answer.clone()]))
+                            };
+                            let _ = sink.lock().await.send(resp).await;
+                        });
                     }
                 }
                 _ => {}
